@@ -3,6 +3,7 @@ package props
 import (
 	"fmt"
 	"go/ast"
+	"go/token"
 	"go/types"
 	"strings"
 
@@ -85,12 +86,42 @@ func checkTypecheckRecover(c *core.Ctx) {
 					continue
 				}
 				fl, isLit := ds.Call.Fun.(*ast.FuncLit)
+				// a named function deferred directly (`defer recoverInto(&outErr)`): recover() works there too; the
+				// error result is reached through the pointer parameter that is handed &result
+				viaParam := ""
+				if !isLit {
+					if named := funcValueLit(p, fn, ds.Call.Fun); named != nil && named.Type.Params != nil {
+						k := 0
+						for _, f := range named.Type.Params.List {
+							for _, nm := range f.Names {
+								if k < len(ds.Call.Args) {
+									if ue, ok := core.Unparen(ds.Call.Args[k]).(*ast.UnaryExpr); ok && ue.Op == token.AND {
+										if id, ok := ue.X.(*ast.Ident); ok && info.Uses[id] == errRes {
+											viaParam = nm.Name
+										}
+									}
+								}
+								k++
+							}
+						}
+						if viaParam != "" {
+							fl, isLit = named, true
+						}
+					}
+				}
 				if !isLit {
 					continue
 				}
 				recovers, assigns := false, false
 				repanics := false
 				ast.Inspect(fl.Body, func(n ast.Node) bool {
+					if as, isAs := n.(*ast.AssignStmt); isAs && viaParam != "" {
+						for _, l := range as.Lhs {
+							if se, ok := l.(*ast.StarExpr); ok && core.ExprStr(se.X) == viaParam && len(as.Rhs) == 1 && core.ExprStr(as.Rhs[0]) != "nil" {
+								assigns = true
+							}
+						}
+					}
 					if call, isCall := n.(*ast.CallExpr); isCall && core.ExprStr(call.Fun) == "recover" {
 						recovers = true
 					}
